@@ -544,7 +544,7 @@ func corpus() []*tcase {
 func TestCheck(t *testing.T) {
 	r := mon.Start(t, "C04")
 	defer r.Finish()
-	r.Rule("cases: histories of up to 14 steps (merge batch | flush | advance clock) over a real MetricAggregator whose clock is virtual; 0..5 integer percentiles in [-100,100] (pool ±100 ±90 ±50 ±1 0), histogram limit from {0,1,2,3,MaxUint32}, per-type expiry from {0,10s,1s,-1s} so that idle persisted series occur, sub-metric masks (none, one flag, all, all plain ones, random); batches of counters, gauges, sets and timers (bursts of 2..5 values on one series) over 7 names x 20 tag sets x 3 sources, with and without gsd_histogram tags including malformed lists (empty, a__b, nan, inf, duplicates, overflow, two histogram tags, 12 tags); values 0, -0, small integers, ±1e308, MaxFloat64, ±Inf, 5e-324; after every flush the map given to Process goes, one backend at a time, to SendMetricsAsync of 20 backend variants built through their viper factories against local sinks: graphite legacy/basic/tags, datadog, influxdb v1/v2 x gzip, newrelic infra/insights/metrics, otlp AsGauge/AsHistogram x resource keys, statsdaemon udp/tcp, stdout, null, cloudwatch (mock API); batch sizes from {1,...,default}. Further phases: (config) 1600 quick / 40000 thorough single backends (datadog, influxdb, newrelic, otlp, graphite, statsdaemon) built by backends.InitBackend from configuration TEXT (toml) with batch sizes from {-1000..0..100000, quoted, non-numeric, fractional}, valid and invalid flush types / api versions / conversions / modes / time-outs / missing keys: either the constructor refuses or a whole history is flushed through the backend without a crash; (cancel) 640 / 16000 flushes of several batches to an HTTP backend with max-requests 1..2 whose endpoint holds every request: k-1 requests are answered and the flush context is cancelled when the k-th (k = 1..5) is in flight; (server) 48 / 640 real statsd.Server instances with graphite / statsdaemon tcp+udp / null backends whose Run functions sit in Server.Runnables next to 0..2 slow-to-stop runnables, flush interval 0.5..3 ms on the real clock, fed a few datagrams and stopped after 5..35 ms while flush ticks keep arriving. Oracle: no panic in Flush/Process/Reset or in SendMetricsAsync (recover), no process death (write-ahead case log), the callback arrives. One evaluation = one completed SendMetricsAsync. Non-trivial: a flushed map with a timer with n >= 1, an idle persisted timer or a histogram; distinct by (percentile sign pattern, n class {0,1,2,3+}) resp. (n class, limit, bucket count class) x backend variant.")
+	r.Rule("cases: histories of up to 14 steps (merge batch | flush | advance clock) over a real MetricAggregator whose clock is virtual; 0..5 integer percentiles in [-100,100] (pool ±100 ±90 ±50 ±1 0), histogram limit from {0,1,2,3,MaxUint32}, per-type expiry from {0,10s,1s,-1s} so that idle persisted series occur, sub-metric masks (none, one flag, all, all plain ones, random); batches of counters, gauges, sets and timers (bursts of 2..5 values on one series) over 7 names x 20 tag sets x 3 sources, with and without gsd_histogram tags including malformed lists (empty, a__b, nan, inf, duplicates, overflow, two histogram tags, 12 tags); values 0, -0, small integers, ±1e308, MaxFloat64, ±Inf, 5e-324; after every flush the map given to Process goes, one backend at a time, to SendMetricsAsync of 20 backend variants built through their viper factories against local sinks: graphite legacy/basic/tags, datadog, influxdb v1/v2 x gzip, newrelic infra/insights/metrics, otlp AsGauge/AsHistogram x resource keys, statsdaemon udp/tcp, stdout, null, cloudwatch (mock API); batch sizes from {1,...,default}. Further phases: (config) 1200 quick / 40000 thorough single backends (datadog, influxdb, newrelic, otlp, graphite, statsdaemon) built by backends.InitBackend from configuration TEXT (toml) with batch sizes from {-1000..0..100000, 1e8, 2^40, MaxInt32, MaxInt64, MinInt64, quoted, non-numeric, fractional}, valid and invalid flush types / api versions / conversions / modes / time-outs / missing keys: either the constructor refuses or a whole history is flushed through the backend without a crash; (cancel) 480 / 16000 flushes of several batches to an HTTP backend with max-requests 1..2 whose endpoint holds every request: k-1 requests are answered and the flush context is cancelled when the k-th (k = 1..5) is in flight; (server) 48 / 640 real statsd.Server instances with graphite / statsdaemon tcp+udp / null backends whose Run functions sit in Server.Runnables next to 0..2 slow-to-stop runnables, flush interval 0.5..3 ms on the real clock, fed a few datagrams and stopped after 5..35 ms while flush ticks keep arriving. Oracle: no panic in Flush/Process/Reset or in SendMetricsAsync (recover), no process death (write-ahead case log), the callback arrives. One evaluation = one completed SendMetricsAsync. Non-trivial: a flushed map with a timer with n >= 1, an idle persisted timer or a histogram; distinct by (percentile sign pattern, n class {0,1,2,3+}) resp. (n class, limit, bucket count class) x backend variant.")
 	r.Assume("an HTTP sink that answers 200 with an empty body; panics on goroutines of the backends are seen as death of the child process")
 	// the backends take 1 MB buffers and flate writers from pools that every GC cycle empties
 	debug.SetGCPercent(400)
@@ -575,8 +575,8 @@ func TestCheck(t *testing.T) {
 	}
 	// phases that reach the code around the payload builders: constructors from configuration text,
 	// cancellation between batches, start and stop of a real server with socket backends (phases_test.go)
-	configPhase(e, r.Rand("c04-config"), r.N(1600, 40000))
-	cancelPhase(e, r.Rand("c04-cancel"), r.N(640, 16000))
+	configPhase(e, r.Rand("c04-config"), r.N(1200, 40000))
+	cancelPhase(e, r.Rand("c04-cancel"), r.N(480, 16000))
 	serverPhase(e, r.Rand("c04-server"), r.N(48, 640))
 	if s, _ := r.Shard(); s == 0 {
 		cc := corpus()
